@@ -61,12 +61,13 @@ class PyObj:
 
 class PyList:
     """list/deque of concrete length (items may be symbolic)."""
-    __slots__ = ('items', 'cls', 'is_deque', 'orig')
+    __slots__ = ('items', 'cls', 'is_deque', 'orig', 'maxlen')
 
     def __init__(self, items=None, cls=None):
         self.items = list(items) if items is not None else []
         self.cls = cls      # ClassObj when an interpreted subclass of list (SortedList)
         self.is_deque = False
+        self.maxlen = None  # deque(maxlen=n): appending to a full deque silently drops from the other end
         self.orig = None    # for old(...) copies: the live object this is a pre-state copy of
 
     def __repr__(self):
